@@ -856,3 +856,76 @@ Theorem nested_no_junk : forall fs k a, bt_lookup k (nested_obj fs) = Some a ->
 Proof.
   intros fs k a H. apply nested_fold_only in H. destruct H as [H|H]; [discriminate|exact H].
 Qed.
+
+(** * integers: the decimal text determines the integer *)
+Definition dec_val (ds : bytes) : N := fold_left (fun a d => a * 10 + (d - 48)) ds 0.
+
+(* the reader's side for integer tokens *)
+Definition undec_Z (ds : bytes) : Z :=
+  match ds with
+  | [] => 0%Z
+  | b :: r => if b =? 45 then (- Z.of_N (dec_val r))%Z else Z.of_N (dec_val ds)
+  end.
+
+Lemma dec_val_snoc xs d : dec_val (xs ++ [d]) = dec_val xs * 10 + (d - 48).
+Proof. unfold dec_val. rewrite fold_left_app. reflexivity. Qed.
+
+Lemma dec_fuel_acc fuel : forall n acc, dec_fuel fuel n acc = dec_fuel fuel n [] ++ acc.
+Proof.
+  induction fuel as [|f IH]; intros n acc; cbn [dec_fuel]; [reflexivity|].
+  destruct (n / 10 =? 0); [reflexivity|].
+  rewrite (IH (n / 10) ((48 + n mod 10) :: acc)), (IH (n / 10) [48 + n mod 10]).
+  rewrite <- app_assoc. reflexivity.
+Qed.
+
+Lemma dec_fuel_S f n acc :
+  dec_fuel (S f) n acc =
+  if n / 10 =? 0 then (48 + n mod 10) :: acc else dec_fuel f (n / 10) ((48 + n mod 10) :: acc).
+Proof. reflexivity. Qed.
+
+Lemma dec_fuel_value f : forall n, n < 2 ^ N.of_nat f -> dec_val (dec_fuel (S f) n []) = n.
+Proof.
+  induction f as [|f IH]; intros n Hn; rewrite dec_fuel_S.
+  - change (2 ^ N.of_nat 0) with 1 in Hn. assert (n = 0) by lia. subst n. reflexivity.
+  - destruct (N.eqb_spec (n / 10) 0) as [E|E].
+    + unfold dec_val. cbn [fold_left]. lia.
+    + rewrite dec_fuel_acc, dec_val_snoc, IH; [lia|].
+      rewrite Nat2N.inj_succ, N.pow_succ_r' in Hn. lia.
+Qed.
+
+Lemma size_nat_gt n : n < 2 ^ N.of_nat (N.size_nat n).
+Proof.
+  destruct n as [|p]; [reflexivity|]. cbn [N.size_nat].
+  induction p as [p IH|p IH|]; cbn [Pos.size_nat].
+  - rewrite Nat2N.inj_succ, N.pow_succ_r'. change (N.pos p~1) with (2 * N.pos p + 1). lia.
+  - rewrite Nat2N.inj_succ, N.pow_succ_r'. change (N.pos p~0) with (2 * N.pos p). lia.
+  - reflexivity.
+Qed.
+
+Theorem dec_N_value : forall n, dec_val (dec_N n) = n.
+Proof. intros n. unfold dec_N. apply dec_fuel_value. apply size_nat_gt. Qed.
+
+Lemma dec_fuel_digits fuel : forall n acc, Forall (fun b => 48 <= b <= 57) acc ->
+  Forall (fun b => 48 <= b <= 57) (dec_fuel fuel n acc).
+Proof.
+  induction fuel as [|f IH]; intros n acc H; cbn [dec_fuel]; [exact H|].
+  assert (H' : Forall (fun b => 48 <= b <= 57) ((48 + n mod 10) :: acc)) by (constructor; [lia|exact H]).
+  destruct (n / 10 =? 0); [exact H'|apply IH, H'].
+Qed.
+
+Lemma dec_N_digits n : Forall (fun b => 48 <= b <= 57) (dec_N n).
+Proof. apply dec_fuel_digits. constructor. Qed.
+
+(* reading the decimal token gives back the integer: integer fields round-trip too *)
+Theorem undec_dec_Z : forall z, undec_Z (dec_Z z) = z.
+Proof.
+  intros z. unfold dec_Z. destruct (Z.ltb_spec z 0) as [L|L].
+  - cbn [undec_Z]. change (45 =? 45) with true. cbv iota. rewrite dec_N_value. lia.
+  - pose proof (dec_N_digits (Z.abs_N z)) as Hd. pose proof (dec_N_value (Z.abs_N z)) as Hv.
+    unfold undec_Z. destruct (dec_N (Z.abs_N z)) as [|b r] eqn:E.
+    + unfold dec_val in Hv. cbn [fold_left] in Hv. lia.
+    + inversion Hd; subst. destruct (N.eqb_spec b 45) as [->|_]; [lia|]. rewrite Hv. lia.
+Qed.
+
+Corollary dec_Z_inj : forall a b, dec_Z a = dec_Z b -> a = b.
+Proof. intros a b H. rewrite <- (undec_dec_Z a), <- (undec_dec_Z b), H. reflexivity. Qed.
